@@ -320,7 +320,7 @@ impl Exp {
 
     /// True if the expression contains a division whose denominator is not a
     /// non-zero numeric constant (a zero divisor or a non-constant divisor).
-    fn has_unresolved_division(&self) -> bool {
+    pub(crate) fn has_unresolved_division(&self) -> bool {
         match self {
             Exp::Number(_) | Exp::Variable(_) => false,
             Exp::Abs(inner) | Exp::Not(inner) | Exp::UnOp(_, inner) => {
